@@ -205,15 +205,15 @@ PROPS = {
         "explanation": "",
     },
     "C07": {
-        "modules": ["contracts.c07_listing", "contracts.c08_names"],
-        "unit_filter": ["lemma:ls-date-round-trip(build_list_mtime;parse_ls_date)", "BaseClient.parse_mlsx_line", "Server.build_mlsx_string", "lemma:first-space-splits-facts-from-name"],
+        "modules": ["contracts.c07_listing", "contracts.c08_names", "contracts.worker_units", "contracts.c09_client"],
+        "unit_filter": ["lemma:ls-date-round-trip(build_list_mtime;parse_ls_date)", "BaseClient.parse_mlsx_line", "Server.build_mlsx_string", "lemma:first-space-splits-facts-from-name", "list_worker@list", "mlsd_worker@mlsd", "Client.list.<locals>.AsyncLister.__anext__", "Client.list.<locals>.AsyncLister._new_stream", "Client.stat"],
         "extra": ["contracts.index.c07_rt"],
         "level": "proof",
         "trusted_base": [T_PY, T_ENGINE, T_SOLVER, "T-time: proleptic Gregorian calendar; strftime/strptime inverse on the printed fields for the formats of the tree; years 1970..2200", "T-str"],
         "assumptions": ["T-zone: one fixed UTC offset for server localtime and client now; the client parses a listing within one hour of its production"],
         "not_decided": [
             "whole-line LIST round trip (type, size, name fields through build_list_string / parse_list_line_unix) and the MLSx fact values (Size, Modify, Type): bounded run-time checker rt/c07_rt.py only",
-            "one entry per line / none invented (mlsd_worker / list_worker loop invariants over the backend listing): not under contract",
+            "one entry per line / none invented is proved per loop iteration on both sides (list_worker/mlsd_worker: one listed entry -> exactly that entry's line; AsyncLister.__anext__: every line read is parsed once by its stream's parser; _new_stream / Client.stat: MLSD/MLST first, LIST only as the 50x fallback); that the backend lister itself yields each directory entry once is the backend's contract (C18 for MemoryPathIO, the OS for PathIO)",
             "DST zones; libc locale other than the setlocale('C') the code forces; what PathIO.stat reports",
         ],
         "explanation": "",
